@@ -13,14 +13,15 @@ import (
 
 // ---------------------------------------------------------------- implementation side
 
-type dImpl struct {
+type dImpl[T any] struct {
+	c   codec[T]
 	big bool
-	l   [2]*listz.DList[int]
-	h   []*listz.DNode[int] // handle id -> node; ids 0,1 are the sentinels (never used as handles)
-	ids map[*listz.DNode[int]]int
+	l   [2]*listz.DList[T]
+	h   []*listz.DNode[T] // handle id -> node; ids 0,1 are the sentinels (never used as handles)
+	ids map[*listz.DNode[T]]int
 }
 
-func (d *dImpl) reg(e *listz.DNode[int]) int {
+func (d *dImpl[T]) reg(e *listz.DNode[T]) int {
 	if e == nil {
 		return -1
 	}
@@ -33,7 +34,7 @@ func (d *dImpl) reg(e *listz.DNode[int]) int {
 	return id
 }
 
-func (d *dImpl) show(e *listz.DNode[int]) string {
+func (d *dImpl[T]) show(e *listz.DNode[T]) string {
 	if e == nil {
 		return "nil"
 	}
@@ -43,7 +44,7 @@ func (d *dImpl) show(e *listz.DNode[int]) string {
 	return "?"
 }
 
-func (d *dImpl) dump(l *listz.DList[int]) string {
+func (d *dImpl[T]) dump(l *listz.DList[T]) string {
 	var f, b, v []string
 	n := 0
 	for e := l.Front(); e != nil; e = e.Next() {
@@ -69,10 +70,10 @@ func (d *dImpl) dump(l *listz.DList[int]) string {
 			v = append(v, "!")
 			break
 		}
-		v = append(v, strconv.Itoa(x))
+		v = append(v, strconv.Itoa(d.c.dec(x)))
 		n++
 	}
-	if !breakOK(l.All(), v) {
+	if !breakOK(mapSeq(l.All(), d.c.dec), v) {
 		v = append(v, "all-break!")
 	}
 	return fmt.Sprintf("%d f[%s] b[%s] v[%s]", l.Len(), strings.Join(f, " "), strings.Join(b, " "), strings.Join(v, " "))
@@ -130,14 +131,14 @@ func (g *digest) String() string {
 	return s
 }
 
-func (d *dImpl) idOf(e *listz.DNode[int]) int {
+func (d *dImpl[T]) idOf(e *listz.DNode[T]) int {
 	if id, ok := d.ids[e]; ok {
 		return id
 	}
 	return -5
 }
 
-func (d *dImpl) dumpBig(l *listz.DList[int]) string {
+func (d *dImpl[T]) dumpBig(l *listz.DList[T]) string {
 	var f, b, v, v2 digest
 	for e := l.Front(); e != nil; e = e.Next() {
 		if f.n == bigCap {
@@ -145,7 +146,7 @@ func (d *dImpl) dumpBig(l *listz.DList[int]) string {
 			break
 		}
 		f.add(d.idOf(e))
-		v.add(e.Value)
+		v.add(d.c.dec(e.Value))
 	}
 	for e := l.Back(); e != nil; e = e.Prev() {
 		if b.n == bigCap {
@@ -161,7 +162,7 @@ func (d *dImpl) dumpBig(l *listz.DList[int]) string {
 			v2.cut = true
 			break
 		}
-		v2.add(x)
+		v2.add(d.c.dec(x))
 	}
 	vs := v.String()
 	if v2.String() != vs {
@@ -174,7 +175,7 @@ func (d *dImpl) dumpBig(l *listz.DList[int]) string {
 		cnt, e := 0, l.Front()
 		ok := true
 		for x := range l.All() {
-			if e == nil || x != e.Value {
+			if e == nil || d.c.dec(x) != d.c.dec(e.Value) {
 				ok = false
 				break
 			}
@@ -192,7 +193,7 @@ func (d *dImpl) dumpBig(l *listz.DList[int]) string {
 	return fmt.Sprintf("%d f~%s b~%s v~%s", l.Len(), f.String(), b.String(), vs)
 }
 
-func (d *dImpl) dumpAll() string {
+func (d *dImpl[T]) dumpAll() string {
 	if d.big {
 		return d.dumpBig(d.l[0]) + " | " + d.dumpBig(d.l[1])
 	}
@@ -209,11 +210,31 @@ func listIdx(t string) int {
 	return -1
 }
 
+// implD runs the case on DList[T] for the element type named by the header token `ty=…`.
 func implD(c core.Case) []string {
-	d := &dImpl{ids: map[*listz.DNode[int]]int{}}
-	d.h = []*listz.DNode[int]{nil, nil}
+	switch tyOf(c) {
+	case "string":
+		return implDT(c, strCodec)
+	case "float":
+		return implDT(c, floatCodec)
+	case "slice":
+		return implDT(c, sliceCodec)
+	case "any":
+		return implDT(c, anyCodec)
+	case "unit":
+		return implDT(c, unitCodec)
+	case "fstruct":
+		return implDT(c, fstructCodec)
+	}
+	return implDT(c, intCodec)
+}
+
+func implDT[T any](c core.Case, cd codec[T]) []string {
+	d := &dImpl[T]{c: cd, ids: map[*listz.DNode[T]]int{}}
+	d.h = []*listz.DNode[T]{nil, nil}
 	return core.RunOps(c,
 		func(hdr []string) string {
+			hdr = dropTy(hdr)
 			if len(hdr) == 4 && hdr[3] == "big" {
 				d.big = true
 			} else if len(hdr) != 3 {
@@ -222,9 +243,9 @@ func implD(c core.Case) []string {
 			for i := 0; i < 2; i++ {
 				switch hdr[1+i] {
 				case "z":
-					d.l[i] = new(listz.DList[int])
+					d.l[i] = new(listz.DList[T])
 				case "n":
-					d.l[i] = listz.NewDoubly[int]()
+					d.l[i] = listz.NewDoubly[T]()
 				default:
 					return "bad-op"
 				}
@@ -240,7 +261,7 @@ func implD(c core.Case) []string {
 		})
 }
 
-func (d *dImpl) handle(t string) *listz.DNode[int] {
+func (d *dImpl[T]) handle(t string) *listz.DNode[T] {
 	h, err := strconv.Atoi(t)
 	if err != nil || h < 2 || h >= len(d.h) || strings.HasPrefix(t, "+") {
 		return nil
@@ -249,7 +270,7 @@ func (d *dImpl) handle(t string) *listz.DNode[int] {
 }
 
 // wellFormed: t is a plain protocol line whose handles exist now (what the Lean driver parses).
-func (d *dImpl) wellFormed(t []string) bool {
+func (d *dImpl[T]) wellFormed(t []string) bool {
 	sig, ok := dArity[firstOr(t)]
 	if !ok || len(t) != 1+len(sig) {
 		return false
@@ -285,10 +306,10 @@ var dArity = map[string]string{
 	"new": "v", "init": "l", "pf": "lv", "pb": "lv", "ib": "lvh", "ia": "lvh",
 	"pfn": "lh", "pbn": "lh", "inb": "lhh", "ina": "lhh", "mtf": "lh", "mtb": "lh",
 	"mb": "lhh", "ma": "lhh", "rm": "lh", "pbl": "ll", "pfl": "ll", "front": "l", "back": "l", "len": "l",
-	"next": "h", "prev": "h",
+	"next": "h", "prev": "h", "setv": "hv",
 }
 
-func (d *dImpl) step(t []string) string {
+func (d *dImpl[T]) step(t []string) string {
 	if len(t) == 0 {
 		return "bad-op"
 	}
@@ -305,7 +326,7 @@ func (d *dImpl) step(t []string) string {
 		for i := 0; i < k; i++ {
 			switch op {
 			case "pushn":
-				d.reg(l.PushBack(i % 10))
+				d.reg(l.PushBack(d.c.enc(i % 10)))
 			case "removen":
 				if e := l.Front(); e != nil {
 					l.Remove(e)
@@ -352,7 +373,7 @@ func (d *dImpl) step(t []string) string {
 					ys = append(ys, "!")
 					break
 				}
-				ys = append(ys, strconv.Itoa(v))
+				ys = append(ys, strconv.Itoa(d.c.dec(v)))
 				if !body() {
 					break
 				}
@@ -371,18 +392,12 @@ func (d *dImpl) step(t []string) string {
 		}
 		return "y[" + strings.Join(ys, " ") + "]"
 	}
-	arity := map[string]string{
-		"new": "v", "init": "l", "pf": "lv", "pb": "lv", "ib": "lvh", "ia": "lvh",
-		"pfn": "lh", "pbn": "lh", "inb": "lhh", "ina": "lhh", "mtf": "lh", "mtb": "lh",
-		"mb": "lhh", "ma": "lhh", "rm": "lh", "pbl": "ll", "pfl": "ll", "front": "l", "back": "l", "len": "l",
-		"next": "h", "prev": "h",
-	}
-	sig, ok := arity[op]
+	sig, ok := dArity[op]
 	if !ok || len(t) != 1+len(sig) {
 		return "bad-op"
 	}
-	var ls []*listz.DList[int]
-	var hs []*listz.DNode[int]
+	var ls []*listz.DList[T]
+	var hs []*listz.DNode[T]
 	v := 0
 	for i, k := range sig {
 		a := t[1+i]
@@ -409,24 +424,24 @@ func (d *dImpl) step(t []string) string {
 	}
 	switch op {
 	case "new":
-		return strconv.Itoa(d.reg(&listz.DNode[int]{Value: v}))
+		return strconv.Itoa(d.reg(&listz.DNode[T]{Value: d.c.enc(v)}))
 	case "init":
 		ls[0].Init()
 		return "ok"
 	case "pf":
-		e := ls[0].PushFront(v)
+		e := ls[0].PushFront(d.c.enc(v))
 		d.reg(e)
 		return d.show(e)
 	case "pb":
-		e := ls[0].PushBack(v)
+		e := ls[0].PushBack(d.c.enc(v))
 		d.reg(e)
 		return d.show(e)
 	case "ib":
-		e := ls[0].InsertBefore(v, hs[0])
+		e := ls[0].InsertBefore(d.c.enc(v), hs[0])
 		d.reg(e)
 		return d.show(e)
 	case "ia":
-		e := ls[0].InsertAfter(v, hs[0])
+		e := ls[0].InsertAfter(d.c.enc(v), hs[0])
 		d.reg(e)
 		return d.show(e)
 	case "pfn":
@@ -446,12 +461,12 @@ func (d *dImpl) step(t []string) string {
 	case "ma":
 		ls[0].MoveAfter(hs[0], hs[1])
 	case "rm":
-		return strconv.Itoa(ls[0].Remove(hs[0]))
+		return strconv.Itoa(d.c.dec(ls[0].Remove(hs[0])))
 	case "pbl":
 		n := ls[1].Len()
 		ls[0].PushBackDList(ls[1])
 		// the n copies were allocated front to back: they are the last n nodes
-		var cs []*listz.DNode[int]
+		var cs []*listz.DNode[T]
 		e := ls[0].Back()
 		for i := 0; i < n && e != nil; i++ {
 			cs = append(cs, e)
@@ -464,7 +479,7 @@ func (d *dImpl) step(t []string) string {
 		n := ls[1].Len()
 		ls[0].PushFrontDList(ls[1])
 		// the n copies were allocated back to front: the first allocated is the n-th node
-		var cs []*listz.DNode[int]
+		var cs []*listz.DNode[T]
 		e := ls[0].Front()
 		for i := 0; i < n && e != nil; i++ {
 			cs = append(cs, e)
@@ -473,6 +488,8 @@ func (d *dImpl) step(t []string) string {
 		for i := len(cs) - 1; i >= 0; i-- {
 			d.reg(cs[i])
 		}
+	case "setv":
+		hs[0].Value = d.c.enc(v) // the caller owns Value; the list must not depend on it
 	case "len":
 		return strconv.Itoa(ls[0].Len())
 	case "front":
@@ -580,7 +597,7 @@ func (d *dRef) rebind(old, nu *list.Element) {
 }
 
 func checkD(c core.Case, out []string) *core.Failure {
-	hdr := core.Toks(c.Lines[0])
+	hdr := dropTy(core.Toks(c.Lines[0]))
 	if len(hdr) != 5 && !(len(hdr) == 6 && hdr[5] == "big") {
 		return nil
 	}
@@ -613,7 +630,7 @@ func checkD(c core.Case, out []string) *core.Failure {
 		}
 		need := map[string][2]int{"new": {0, 0}, "init": {1, 0}, "pf": {1, 0}, "pb": {1, 0}, "ib": {1, 1}, "ia": {1, 1},
 			"pfn": {1, 1}, "pbn": {1, 1}, "inb": {1, 2}, "ina": {1, 2}, "mtf": {1, 1}, "mtb": {1, 1}, "mb": {1, 2}, "ma": {1, 2},
-			"rm": {1, 1}, "pbl": {2, 0}, "pfl": {2, 0}, "front": {1, 0}, "back": {1, 0}, "len": {1, 0}, "next": {0, 1}, "prev": {0, 1}}
+			"rm": {1, 1}, "pbl": {2, 0}, "pfl": {2, 0}, "front": {1, 0}, "back": {1, 0}, "len": {1, 0}, "next": {0, 1}, "prev": {0, 1}, "setv": {0, 1}}
 		nd, ok := need[t[0]]
 		if !ok || bad || len(ls) != nd[0] {
 			return "", false // malformed line: nothing to say
@@ -633,6 +650,14 @@ func checkD(c core.Case, out []string) *core.Failure {
 		}
 		if t[0] == "ib" || t[0] == "ia" {
 			v, _ = strconv.Atoi(t[2])
+		}
+		if t[0] == "setv" { // `setv h v`: the handle is the first integer
+			v, _ = strconv.Atoi(t[2])
+			if n, err := strconv.Atoi(t[1]); err != nil || n < 2 || n >= len(d.h) {
+				return "", false
+			} else {
+				hs = []*list.Element{d.h[n]}
+			}
 		}
 		res := "ok"
 		switch t[0] {
@@ -709,6 +734,8 @@ func checkD(c core.Case, out []string) *core.Failure {
 			for k := len(cs) - 1; k >= 0; k-- {
 				d.reg(cs[k])
 			}
+		case "setv":
+			hs[0].Value = v
 		case "len":
 			res = strconv.Itoa(ls[0].Len())
 		case "front":
@@ -950,7 +977,7 @@ func genD(r *core.Rand, tier string) core.Case {
 		}
 		L := names[k]
 		v := r.Range(0, 9)
-		switch r.Pick(10, 12, 7, 7, 3, 3, 3, 3, 3, 7, 7, 8, 8, 12, 3, 3, 1, 1, 2, 2, 1, 5) {
+		switch r.Pick(10, 12, 7, 7, 3, 3, 3, 3, 3, 7, 7, 8, 8, 12, 3, 3, 1, 1, 2, 2, 1, 5, 4) {
 		case 0:
 			lines = append(lines, fmt.Sprintf("pf %s %d", L, v))
 			g.l[k] = insAt(g.l[k], 0, g.next)
@@ -1103,6 +1130,12 @@ func genD(r *core.Rand, tier string) core.Case {
 			if len(g.l[k]) == 0 {
 				lines = append(lines, "init "+L)
 			}
+		case 22: // the caller changes a node's Value through the handle (live, removed or foreign node)
+			e := g.pick(r, k)
+			if e < 0 {
+				continue
+			}
+			lines = append(lines, fmt.Sprintf("setv %d %d", e, v))
 		case 21: // range over the list while the body mutates it through handles
 			lines = append(lines, dLoopLine(r, g, k))
 		}
